@@ -380,6 +380,8 @@ Definition step_reg (s : sys) (th : tid) (e : event) : option sys :=
       do c <- get n (confs s);
       check negb (has i (insts s));
       check creates t n;
+      (* runProcess creates ONE instance and spawns it before it creates another *)
+      check forallb (fun p => negb (N.eqb (fst (snd p)) th && Nat.ltb (snd (snd p)) 3)) (stage s);
       Some (set_stage th i 0 (s <| insts := set i (new_inst n c) (insts s) |>))
   | ERegAdd i n =>
       do x <- get i (insts s);
